@@ -108,7 +108,13 @@ def py_fori(lower, upper, step_func, /, init):
 
 
 def identity_jit(f, /, static_argnums=None, static_argnames=None):
-    return f
+    """`jit` of the stepped backend: runs f eagerly but, like jit, returns arrays (a Python int such
+    as the initial num_steps=0 becomes a 0-d array, which is what callers of jitted code see)."""
+
+    def wrapped(*a, **k):
+        return tu.tree_map(jnp.asarray, f(*a, **k))
+
+    return wrapped
 
 
 @contextlib.contextmanager
